@@ -24,7 +24,7 @@ LEVEL_TEXT = ('All source byte strings up to length 2 (thorough: all 65 793; qui
               'p2hex, alink and dasl are executed; crashes are re-run under AddressSanitizer to obtain a call-site signature.'
               ' Further: all sequences <= 3 (4) of preprocessor directives and of structure-body lines with element references on three targets, every built-in function with 0..5 arguments, self- and mutually-referencing FUNCTIONs, formula nesting to 100 000 levels, and field edits (boundary values for each count and name position) of relocation-info records. Output that hits the size cap although the input names no large count is a runaway, not proportional work.'
               ' Lines that grow while processed (#define expansions, TABs in stored body lines, listing wrap of long lines), entry vectors of dasl at and across the image end, and the option arguments of the code-file tools at their limits (-f lists up to 300 entries, -r/-l/-e/-R values) are enumerated as well.'
-              ' Added in the last round: data statements with hundreds of arguments on every target under AddressSanitizer.')
+              ' Added in the last round: data statements with hundreds of arguments on every target under AddressSanitizer. Relocation entries that resolve are enumerated over patch address x width around the record they belong to (alink).')
 LEVEL_NOTE = ('Trusted: exit status / signal / ASan report as observed; independent pfile reader to classify malformed code files. Termination is '
               'only claimed for inputs without WHILE and self-recursive macros. UBSan is not used (benign noise on the unchanged tree).')
 RULE = 'each enumerated input once; non-trivial = input is rejected or exercises an error path (status != 0) or reaches a tool with a mutated file'
